@@ -36,6 +36,14 @@ def cap(v):
     return int(min(abs(v), 2e9))
 
 
+def qint(x):
+    """flow in quanta, clipped; a flow that is not a number is logged as a (huge) negative flow"""
+    x = float(x)
+    if x != x:
+        return -400000000
+    return int(max(min(round(x), 4e8), -4e8))
+
+
 class World:
     def __init__(self, rng):
         th = thermo()
@@ -76,13 +84,13 @@ class World:
     def project(self):
         m = {}
         for n in PLAIN:
-            m[n] = [int(max(min(round(v / self.q[i]), 4e8), -4e8)) for i, v in enumerate(self.s[n].mol.to_array())]
+            m[n] = [qint(v / self.q[i]) for i, v in enumerate(self.s[n].mol.to_array())]
         for ph, name in (('g', 'msg'), ('l', 'msl')):
             try:
                 row = np.asarray(self.ms.imol[ph].to_array(), float)
             except Exception:
                 row = np.zeros(len(IDS))
-            m[name] = [int(max(min(round(v / self.q[i]), 4e8), -4e8)) for i, v in enumerate(row)]
+            m[name] = [qint(v / self.q[i]) for i, v in enumerate(row)]
         return dict(m=m)
 
     def apply(self, op, a):
@@ -124,7 +132,15 @@ class World:
                 kw['bottom_chemicals'] = tuple(IDS[i - 1] for i in a['botc'])
             sep.partition(feed, top, bot, ids, K, strict=bool(a['strict']), **kw)
             t, b = top.imol[ids], bot.imol[ids]
-            if t.sum() > 0 and b.sum() > 0 and top.F_mol > 0 and bot.F_mol > 0:
+            ftop = bool(a['topc']) and float(top.imol[tuple(IDS[i - 1] for i in a['topc'])].sum()) > 0
+            fbot = bool(a['botc']) and float(bot.imol[tuple(IDS[i - 1] for i in a['botc'])].sum()) > 0
+            only_top, only_bot = (t > 0) & (b == 0), (b > 0) & (t == 0)
+            if top.F_mol > 0 and bot.F_mol > 0 and ((only_top.any() and fbot) or (only_bot.any() and ftop)):
+                # both outlets hold material but a partitioning chemical sits in one of them only although the other phase exists by
+                # specification (a chemical forced into it holds material there): no finite coefficient is reproduced
+                # (chemicals that are neither listed nor forced go to the top outlet; they are not taken to form a phase)
+                obs['kdev'] = 2 * 10 ** 9
+            elif t.sum() > 0 and b.sum() > 0 and top.F_mol > 0 and bot.F_mol > 0:
                 y, x = t / top.F_mol, b / bot.F_mol
                 ok = (x > 0) & (y > 0)
                 if ok.sum() >= 1:
@@ -211,6 +227,10 @@ def _random_op(rng, w):
         feed, top, bot = rng.sample(P, 3)
         ids = sorted(rng.sample([1, 2, 3], rng.choice([2, 3])))
         K6 = [int(10 ** rng.uniform(-3, 3) * 1e6) for _ in ids]
+        if rng.random() < 0.2:
+            K6 = [int(10 ** rng.uniform(0.01, 3) * 1e6) for _ in ids]      # every coefficient above one (or, below, every one below one)
+        elif rng.random() < 0.2:
+            K6 = [int(10 ** rng.uniform(-3, -0.01) * 1e6) for _ in ids]
         rest = [i for i in (4, 5, 6)]
         topc = [5] if rng.random() < 0.5 else []
         botc = rng.choice([[], [4], [4, 6], [6]])
